@@ -20,6 +20,15 @@ func main() {
 		fmt.Fprintln(os.Stderr, "usage: harness <level> <seed> <n> <outdir> [args]")
 		os.Exit(2)
 	}
+	if os.Args[1] == "replay" {
+		// harness replay <casefile> <ignored> <outdir>
+		os.MkdirAll(os.Args[4], 0o755)
+		if err := runReplay(os.Args[2], os.Args[4]); err != nil {
+			fmt.Fprintln(os.Stderr, "harness error:", err)
+			os.Exit(2)
+		}
+		return
+	}
 	seed, _ := strconv.ParseInt(os.Args[2], 10, 64)
 	n, _ := strconv.Atoi(os.Args[3])
 	dir := os.Args[4]
@@ -33,7 +42,13 @@ func main() {
 		if len(os.Args) > 5 {
 			modes = os.Args[5:]
 		}
-		err = runL1(seed, n, dir, modes)
+		err = runL1(seed, n, dir, modes, false)
+	case "l1f":
+		modes := []string{"rows", "plain", "cb"}
+		if len(os.Args) > 5 {
+			modes = os.Args[5:]
+		}
+		err = runL1(seed, n, dir, modes, true)
 	case "l2":
 		prof := "single"
 		if len(os.Args) > 5 {
